@@ -187,3 +187,113 @@ package setz
 //@     decreases 64 - j
 //@   at loop2.body-begin:
 //@     ghost idx = ite(bit(b.set[i], j) == 1, store(idx, 64*i+j, ntr_fn), idx)
+
+// ---------------------------------------------------------------------------------------------------------------
+// RoaringBitmap containers (C03). The array container is a strictly ascending uint16 slice.
+// ---------------------------------------------------------------------------------------------------------------
+//@ spec ascending(v bytes_any) bool = forall i in 0..len(v): forall j in 0..len(v): i < j ==> v[i] < v[j]
+//@ spec holds(v bytes_any, x int) bool = exists i in 0..len(v): v[i] == x
+
+//@ func search
+//@   noalloc
+//@   requires ascending(values)
+//@   ensures 0 <= result && result <= len(values)
+//@   ensures forall i in 0..result: values[i] < x
+//@   ensures forall i in result..len(values): values[i] >= x
+//@   loop 1:
+//@     invariant 0 <= low && low <= high && high <= len(values)
+//@     invariant forall i in 0..low: values[i] < x
+//@     invariant forall i in high..len(values): values[i] >= x
+//@     decreases high - low
+
+//@ func arrayContainer.Contains
+//@   noalloc
+//@   requires ac != nil && ascending(ac.values)
+//@   ensures result == holds(ac.values, x)
+
+//@ func arrayContainer.Remove
+//@   requires ac != nil && ascending(ac.values)
+//@   modifies ac.values, ac.values[0:len(ac.values)]
+//@   ensures result == old(holds(ac.values, x))
+//@   ensures ascending(ac.values) && !holds(ac.values, x)
+//@   ensures len(ac.values) == old(len(ac.values)) - ite(result, 1, 0)
+//@   ensures forall i in 0..len(ac.values): ac.values[i] == old(ac.values)[ite(result && old(ac.values)[i] >= x, i + 1, i)]
+
+// Add. The conversion to a bitmap container (a 4097th distinct value) reinterprets the slice memory through
+// unsafe.Pointer and is outside the verified subset: that branch may be reached exactly when the container is full
+// and x is new ("partial when"), is left unverified there and is exercised by the bounded harness. Every other
+// case, in particular that an array container never grows beyond 4096 values, is proved.
+//@ func arrayContainer.Add
+//@   partial when len(ac.values) == 4096 && !holds(ac.values, x)
+//@   requires ac != nil && ascending(ac.values) && len(ac.values) <= 4096
+//@   modifies ac.values, ac.values[0:cap(ac.values)]
+//@   ensures result2 == !old(holds(ac.values, x))
+//@   ensures ascending(ac.values) && holds(ac.values, x) && len(ac.values) <= 4096
+//@   ensures len(ac.values) == old(len(ac.values)) + ite(result2, 1, 0)
+//@   ensures forall i in 0..old(len(ac.values)): ac.values[ite(result2 && old(ac.values)[i] > x, i + 1, i)] == old(ac.values)[i]
+
+//@ func arrayContainer.Type
+//@   inline
+//@ func arrayContainer.Len
+//@   inline
+
+//@ func arrayContainer.Iter
+//@   requires ac != nil
+//@   ensures result != nil
+
+//@ func arrayContainerIter.Next
+//@   noalloc
+//@   requires i != nil && i.c != nil && -1 <= i.i && i.i < len(i.c.values)
+//@   modifies i.i
+//@   ensures result == (old(i.i) < len(i.c.values) - 1) && i.i == old(i.i) + ite(result, 1, 0)
+
+//@ func arrayContainerIter.Value
+//@   noalloc
+//@   requires i != nil && i.c != nil && 0 <= i.i && i.i < len(i.c.values)
+//@   ensures result == i.c.values[i.i]
+
+// the bitmap container is a Bits value: its methods are thin wrappers over the C16-verified Bits methods
+//@ func bitmapContainer.Remove
+//@   requires b.length == bcard(b) && 0 <= b.length
+//@   modifies b.length, b.set[0:len(b.set)]
+//@   ensures b.length == bcard(b)
+//@   ensures result == old(member(b, x)) && !member(b, x)
+//@   ensures forall m: m != x ==> member(b, m) == old(member(b, m))
+//@   ensures b.length == old(b.length) - ite(result, 1, 0)
+
+//@ func bitmapContainer.Contains
+//@   requires b != nil
+//@   ensures result == member(b, x)
+
+//@ func bitmapContainer.Type
+//@   inline
+//@ func bitmapContainer.Len
+//@   inline
+
+//@ func bitmapContainer.setZero
+//@   requires b != nil && len(b.set) >= 1024
+//@   modifies b.set[0:1024]
+//@   ensures forall i in 0..1024: b.set[i] == 0
+//@   loop 1:
+//@     invariant 0 <= i && i <= 1024 && i % 32 == 0 && (forall k in 0..i: b.set[k] == 0) && unchangedOutside(b.set, 0, 1024)
+//@     decreases 1024 - i
+
+//@ func bitmapContainer.Add
+//@   requires b.length == bcard(b) && 0 <= b.length && b.length < 1099511627776
+//@   modifies b.length, b.set, b.set[0:cap(b.set)]
+//@   ensures b.length == bcard(b)
+//@   ensures result2 == !old(member(b, x)) && member(b, x)
+//@   ensures forall m: m != x ==> member(b, m) == old(member(b, m))
+//@   ensures b.length == old(b.length) + ite(result2, 1, 0)
+
+//@ func bitmapContainerIter.Value
+//@   requires 0 <= i.i && i.i < 1024 && 0 <= i.j && i.j < 64
+//@   ensures result == 64*i.i + i.j
+
+//@ func bitmapContainerIter.Next
+//@   requires i.bm != nil && 0 <= i.i && i.i <= len(i.bm.set) && 0 <= i.j && i.j <= 64 && (i.read ==> i.j < 64)
+//@   modifies i.i, i.j, i.read
+//@   ensures 0 <= i.i && i.i <= len(i.bm.set) && 0 <= i.j && i.j <= 64
+//@   ensures result ==> i.i < len(i.bm.set) && i.j < 64 && bit(i.bm.set[i.i], i.j) == 1 && i.read
+//@   ensures !result ==> i.i == len(i.bm.set) && !i.read
+//@   ensures forall k in old(i.i)..i.i+1: forall j in 0..64: (k < len(i.bm.set) && (k > old(i.i) || j >= old(i.j) + ite(old(i.read), 1, 0)) && (k < i.i || j < i.j)) ==> bit(i.bm.set[k], j) == 0
